@@ -41,6 +41,10 @@ def check(ctx: Ctx) -> None:
     check_per_iteration_leaks(ctx, 'C10.f', [BASE, ALGS], floor=3)
     from ..idioms import check_accumulators_initialised
     check_accumulators_initialised(ctx, 'C10.g', [BASE, ALGS], floor=2)
+    from ..idioms import check_energy_uses_modulus
+    check_energy_uses_modulus(ctx, 'C10.i', [BASE, ALGS], floor=50)
+    from ..idioms import check_validated_arrays_copied
+    check_validated_arrays_copied(ctx, 'C10.j', [BASE, ALGS], floor=3)
     ctx.rule('C10.a', 'DSF: no derived solver quantity is DIRTY at a normal exit of any public entry point', floor=100)
     for cname in IA.classes:
         analyse_class(ctx, 'C10.a', IA, cname)
